@@ -304,6 +304,40 @@ func (d *driver) runPurityProgram(w emitter, pid int, line []byte) {
 				_ = cfg.PrecomputedWeights.DivideOnDomain(uint8(o.A%256), f)
 				_ = cfg.PrecomputedWeights.ComputeBarycentricCoefficients(frFromBig(big.NewInt(int64(300 + o.A))))
 				unchanged = eqFr(f, fb)
+			case "precomp":
+				// a precomputed point over an element of the shared SRS (passed by value), every window size the constructor accepts
+				P := cfg.SRS[o.A%256]
+				pp, err := banderwagon.NewPrecompPoint(P, []int{1, 2, 4, 8}[o.A%4])
+				if err == nil {
+					res := bandersnatch.IdentityExt
+					pp.ScalarMul(rnd.fr(), &res)
+				}
+				unchanged = P == cfg.SRS[o.A%256]
+			case "crs":
+				_ = ipa.GenerateRandomPoints(uint64(1 + o.A%7))
+			case "misc":
+				// the remaining exported helpers on pointers into the shared configuration
+				src := &cfg.SRS[o.A%256]
+				before := *src
+				_ = src.IsOnCurve()
+				b := src.Bytes()
+				var u banderwagon.Element
+				_ = u.SetBytesUnsafe(b[:])
+				aff := affineOf(src)
+				var buf bytes.Buffer
+				bandersnatch.WriteUncompressedPoint(&buf, &aff)
+				bandersnatch.ReadUncompressedPoint(bytes.NewReader(buf.Bytes()))
+				pj := bandersnatch.PointProj{X: aff.X, Y: aff.Y}
+				pj.Z.SetOne()
+				pe := bandersnatch.PointExtendedFromProj(&pj)
+				var t fp.Element
+				t.Mul(&aff.X, &aff.Y)
+				qn := bandersnatch.PointExtendedNormalized{X: aff.X, Y: aff.Y, T: t}
+				bandersnatch.ExtendedAddNormalized(&pe, &pe, &qn)
+				x := rnd.fr()
+				_ = common.PowersOf(x, 1+o.A%9)
+				_ = x.String()
+				unchanged = before == *src
 			case "probe", "tables":
 			}
 		}()
